@@ -31,6 +31,65 @@ def design_checks(ck, tier):
         res = sc.tlc_mc(ck, label.replace("/", "_"), timeout=1800 if tier == "thorough" else 900, **kw)
         vlib.tlc_ok(res, label)
         ck.add_tlc(res, label)
+    # the budget of transmit() that overlooks what its own retransmit phase put back in flight after a T3 expiry
+    # (deviation BudgetBeforeRtx) breaks InFlightWithinWindow on the T3-under-a-closed-window model
+    res = sc.tlc_mc(ck, "fifo_t3win_dev", invariants=[], properties=["InFlightWithinWindow"],
+                    deviations='{"BudgetBeforeRtx"}', **T3WIN_MODEL, timeout=600)
+    if not any("InFlightWithinWindow" in e for e in res["errors"]):
+        raise vlib.ToolError("the BudgetBeforeRtx deviation does not violate InFlightWithinWindow on the model")
+    ck.notes.append("negative control on the model: BudgetBeforeRtx violates InFlightWithinWindow (fifo, rwnd 1 chunk, outage)")
+
+
+# T3 expiry while the advertised window is exhausted and more data is queued: receive window of 1 chunk (+ the one
+# packet of overshoot), four chunks to send, a sender-side limit that is not the bottleneck, the peer silent (outage
+# of A's DATA: everything is lost until the timer brings the first chunk back) and single losses on top
+T3WIN_MODEL = dict(mode="fifo", budget=2, msgs="MsgsA22", init_a="{14}", init_b="{0}", win=4, rwnd=1,
+                   action_constraint="T3WindowFaults")
+T3WIN_SCHEDS = []
+
+
+def gen_t3_window_schedules(ck, tier):
+    path = os.path.join(ck.dir, f"sched_t3win_{tier}_{os.getpid()}.ndjson")
+    kw = dict(T3WIN_MODEL, action_constraint="EmitT3WindowSched")
+    res = sc.tlc_mc(ck, "fifo_t3win", fair=False, sched_sink=path, timeout=900,
+                    invariants=["TypeOK", "ConsecutiveTsn", "WindowRespected", "NewDataWithinWindow"],
+                    properties=["InFlightWithinWindow"], **kw)
+    vlib.tlc_ok(res, "fifo T3 under a closed window")
+    ck.add_tlc(res, "fifo/T3 expiry under an exhausted window (rwnd 1 chunk, outage + loss of A's DATA): InFlightWithinWindow")
+    global T3WIN_SCHEDS
+    T3WIN_SCHEDS = [f for f in sc.schedules_from(path) if any(x["kind"] == "outage" for x in f)]
+
+
+def t3_window_scenarios(rng, tier):
+    """the model's window of 1 chunk (+1) becomes an advertised window of 2-4 chunks of 900-1100 bytes (at most the
+    code's retransmission burst of 4 per expiry outstanding), the model's 4 chunks become 10-12 messages submitted
+    at once; the faults keep the model's chunk numbers (chunks 0..3 of the first window). RTO 60 ms (public
+    configuration): one or two expiries per run. The peer is B's real endpoint; during
+    the outage it receives nothing and therefore stays silent."""
+    out = []
+    singles = [f for f in T3WIN_SCHEDS if len(f) == 1]
+    pairs = [f for f in T3WIN_SCHEDS if len(f) > 1]
+    # pairs in which the retransmission that ends the outage is lost as well: a second expiry (RTO doubled)
+    again = [f for f in pairs if any(x["kind"] == "drop" and x["o"] >= 2 and
+                                     any(y["kind"] == "outage" and y["t"] == x["t"] for y in f) for x in f)]
+    rest = [f for f in pairs if f not in again]
+    scheds = singles + again + (rest if tier == "thorough" else sc.sample(rest, 6, vlib.seed() + 70))
+    for i, f in enumerate(scheds):
+        size = [1000, 900, 1100][i % 3]
+        nwin = [3, 2, 4][(i // 3) % 3]
+        g = []
+        for x in f:
+            g.append(dict(x))
+            if f in again and x["kind"] == "drop" and x["o"] >= 2:
+                # the model's window holds 2 chunks, here up to 4: the loss of the retransmitted chunk stands for
+                # the loss of the whole retransmitted burst
+                g += [dict(x, t=x["t"] + k) for k in range(1, 4)]
+        msgs = [{"from": "A", "sid": 1, "len": size} for _ in range(10 + i % 3)]
+        msgs += [{"from": "A", "sid": 1, "len": 5, "phase": 2}, {"from": "B", "sid": 1, "len": 5, "phase": 2}]
+        out.append(sc.scenario(f"t3w{i:03d}", g, [sc.chan(1)], msgs,
+                               cfg={"rwnd": nwin * size, "rto_initial_ms": 60, "rto_min_ms": 60, "rto_max_ms": 240,
+                                    "heartbeat_ms": 15000}, idle_ms=150, deadline_ms=6000))
+    return out
 
 
 def generate(ck, tier):
@@ -54,7 +113,8 @@ def generate(ck, tier):
     box = sc.in_parallel({"singles": g_singles, "pairs": g_pairs,
                           "window": lambda: sc.gen_window_schedules(ck, tier),
                           "bursts": lambda: gen_bursts(ck, tier),
-                          "coll": lambda: sc.gen_collision_schedules(ck, tier)})
+                          "coll": lambda: sc.gen_collision_schedules(ck, tier),
+                          "t3win": lambda: gen_t3_window_schedules(ck, tier)})
     global WINDOW_SCHEDS, COLLISION_SCHEDS
     WINDOW_SCHEDS, COLLISION_SCHEDS = box["window"], box["coll"]
     pairs, finished = box["pairs"]
@@ -194,6 +254,8 @@ def build_scenarios(singles, pairs, tier):
     scen += sc.collision_scenarios(COLLISION_SCHEDS, rng, limit=30 if tier == "quick" else 300, seed=vlib.seed() + 60)
     # advertised window of exactly zero: TLC's closing-window schedules on a 1.5-3 KiB receive window
     scen += sc.window_scenarios(WINDOW_SCHEDS, rng, idle_ms=150, limit=40 if tier == "quick" else 400, seed=vlib.seed() + 30)
+    # T3 expiry while the advertised window is exhausted, the peer silent and more data queued
+    scen += t3_window_scenarios(rng, tier)
     return scen
 
 
@@ -291,6 +353,18 @@ def selftest():
                 for e in l]
     i_quiet = idx(lambda e: e["comp"] == "app" and e["ev"] == "quiet_begin")
 
+    def sacks_cover_nothing(l):
+        """every SACK the sender processed acknowledges nothing (cumulative TSN below its first chunk, no gap
+        blocks, the window as advertised): per SACK interval little is injected, but what is in flight piles up"""
+        out = []
+        for e in l:
+            if e["comp"] == "sctp" and e["inst"] == "A" and e["ev"] == "sackfx":
+                continue
+            if e["comp"] == "sctp" and e["ev"] == "rx" and e["inst"] == "A" and e["type"] == 3:
+                e = dict(e, cum=(first_tsn - 1) & 0xFFFFFFFF, gaps=[])
+            out.append(e)
+        return out
+
     def edit(i, **kw):
         def f(l):
             l = list(l)
@@ -318,6 +392,8 @@ def selftest():
         "skipped-tsn": (edit_chunk(i_tx[2], tsn=(first_tsn + 7) & 0xFFFFFFFF), "ConsecutiveTsn"),
         # every SACK the sender processed advertised a closed window: what it kept sending is too much
         "window-ignored": (all_sacks_closed, "NewDataWithinWindow"),
+        # nothing is ever acknowledged, yet new data keeps leaving: far more than the window is in flight
+        "flight-ignored": (sacks_cover_nothing, "InFlightWithinWindow"),
         # a late retransmission of a chunk that a processed SACK had covered
         "rtx-after-ack": (lambda l: l[:i_quiet] + [dict(first_tx)] + l[i_quiet:], "NoRtxAfterAck"),
         "chatter": (lambda l: l[:i_quiet + 1] + [dict(ev[i_net])] + l[i_quiet + 1:], "Quiescent"),
